@@ -25,6 +25,17 @@ CHECKS = {
    note='Assumes an IEEE-754 host in round-to-nearest without excess precision and ISO C Annex F libm; NaN payload propagation of the '
         'C compiler for -x/fabs/copysign is trusted. U64->float rounding direction is implementation-defined in C (noted, not decided).',
    ref='DESIGN.md 4/C02'),
+ 'C05': dict(
+   technique='partial evaluation of emitters (both offset variants) + typed-template address rules; path summaries of runtime functions with ordered memory-touch traces',
+   text='For all 23 load/store encodings: the address argument is a 64-bit unsigned sum of the zero-extended address slot and the '
+        'decoded static offset (memarg use), operands are passed in stack order, and the runtime function reached performs exactly '
+        'one byte copy of the access width with the row\'s sign/zero extension (loads) or of the wrapped low bits (stores). '
+        'memory.grow is summarised path by path: wrap and maximum guards dominate success, failure paths store nothing, the old '
+        'page count is returned, the reallocated tail is zeroed before data is republished. memory.copy reaches memmove, fill '
+        'memset, init LOAD_DATA with (dest, src, n) roles; memory.size reads the page count.',
+   note='In-bounds accesses only (as the property); host memcpy/memmove/memset trusted; page arithmetic for all deltas decided '
+        'only as guard presence/position; max==0 sentinel for "no maximum" is noted, not decided. Little-endian configuration (big-endian is C19).',
+   ref='DESIGN.md 4/C05'),
  'C07': dict(
    technique='partial evaluation of the emitter + exact predicate abstraction over bit fields; AST format/type rules',
    text='Decides statically, for all 2^32/2^64 immediates, that the translator\'s float classification tree equals the '
